@@ -296,6 +296,19 @@ class Thing:
 def gen(n):
     for i in range(n):
         yield i
+def outer_calls_inner(x):
+    def inner(y):
+        return [y]
+    return inner(x)
+def make_adder(n):
+    def adder(m):
+        return n + m
+    return adder
+def local_class_method(x):
+    class Local:
+        def run(self, v):
+            return (v,)
+    return Local().run(x)
 '''
 PKG_HELPER = '''
 def triple(x):
@@ -314,6 +327,11 @@ CALLS = {
     "list(core.gen(3))": [("core", "gen")],
     "helper.triple(None)": [("sub.helper", "triple")],
     "pkgmain.entry(5)": [("__main__", "entry")],
+    # functions whose qualified name contains `<locals>`: real source files of the user package, resolvable while their
+    # definer is on the stack (or through the caller's local): admitted by the filter, so recorded like everything else
+    "core.outer_calls_inner(1)": [("core", "outer_calls_inner"), ("core", "outer_calls_inner.<locals>.inner")],
+    "add2 = core.make_adder(2); add2(3)": [("core", "make_adder"), ("core", "make_adder.<locals>.adder")],
+    "core.local_class_method('v')": [("core", "local_class_method"), ("core", "local_class_method.<locals>.Local.run")],
     "json.dumps({'a': 1})": [],
     "colorsys.hls_to_rgb(0.1, 0.2, 0.3)": [],
     "os.path.join('a', 'b')": [],
